@@ -872,11 +872,17 @@ def run(tier, seed, deadline):
     for name, count in all_cases(tier):
         acc.info["part A %s" % name] = count
     n = len(_CASES)
-    # determinism: the first cases of every domain twice
+    # the same spelling evaluated twice in a row: every input is the harness's own (no clock, no randomness), so a
+    # difference means that what an address denotes depends on what was built before - a violation, not a harness fault
+    history_dependent = 0
     for spec in _CASES[:200] + _CASES[:: max(1, n // 200)]:
         r1, r2 = eval_single(spec), eval_single(spec)
+        acc.evaluations += 2
         if (r1[0], repr(r1[1])) != (r2[0], repr(r2[1])):
-            raise HarnessError("C18: evaluating %s twice gave different results" % show(spec))
+            history_dependent += 1
+            acc.fail("history:same-spelling-evaluated-twice-differs", {"notation": show(spec), "first": r1[0], "second": r2[0]},
+                     {"part": "twice", "spec": spec})
+    acc.info["spellings evaluated twice in a row"] = 200 + len(_CASES[:: max(1, n // 200)])
     # contiguous blocks merged in order: the recorded examples of a signature are the first ones of the enumeration
     run_shards(shard_single, blocks(n, 2048), deadline, into=acc, ordered=True)
     acc.info["part A cases"] = n
@@ -895,6 +901,11 @@ def replay(case):
         spec = norm(case["spec"])
         outcome, fails, v = eval_single(spec)
         return not fails, "%s: reference %r -> %s %r" % (show(spec), v, outcome, fails)
+    if part == "twice":
+        spec = norm(case["spec"])
+        r1, r2 = eval_single(spec), eval_single(spec)
+        same = (r1[0], repr(r1[1])) == (r2[0], repr(r2[1]))
+        return same and not r1[1] and not r2[1], "%s: first %s %r, second %s %r" % (show(spec), r1[0], r1[1], r2[0], r2[1])
     if part in ("pair", "triple"):
         names = ["a", "b"] + (["c"] if part == "triple" else [])
         specs = [norm(case[k]) for k in names]
